@@ -1,15 +1,24 @@
-(* C20 — the tables generated from /repo's current source (Gen/ConfigTables.v, written by
-   harness/c20_translate.py on every run) are the prescribed ones; every decision-table statement
-   is transferred to them.  An edited name chain / detection order / default tuple / decision site
-   in the Python source changes [ConfigTables.tables] and makes [tables_eq] fail. *)
-From Coq Require Import String List.
+(* C20 — the statements of Backend/ConfigProofs.v for the tables generated from /repo's current
+   source (Gen/ConfigTables.v, written by harness/c20_translate.py on every run).
+   - configuration / dispatch part: the generated tables must BE the prescribed ones
+     ([tables_cfg_eq], by computation); the statements are transferred.
+   - graph part: every decision-table statement is proved about the generated decision
+     structure itself, by kernel computation over all flag / argument combinations.
+   An edited name chain / detection order / default tuple / spelling list / entry point / decision
+   site / forwarding call in the Python source changes [ConfigTables.tables] and with it what has
+   to be proved here. *)
+From Coq Require Import String List Bool.
 From Cspuz Require Import Lib.PyErr Backend.Config Backend.ConfigProofs Gen.ConfigTables.
+Import ListNotations.
+Local Open Scope string_scope.
 
-Lemma tables_eq : tables = expected_tables.
+Lemma tables_cfg_eq :
+  tables = with_graph (t_sites tables) (t_calls tables) (t_emits tables) (t_raises tables).
 Proof. vm_compute. reflexivity. Qed.
 
-Lemma transfer (P : Config.tables -> Prop) : P expected_tables -> P tables.
-Proof. rewrite tables_eq. exact (fun H => H). Qed.
+Lemma transfer (P : Config.tables -> Prop) :
+  (forall gs gc ge gr, P (with_graph gs gc ge gr)) -> P tables.
+Proof. intros H. rewrite tables_cfg_eq. apply H. Qed.
 
 Definition detect_order_G := transfer _ detect_order_E.
 Definition strtobool_strict_G := transfer _ strtobool_strict_E.
@@ -22,6 +31,31 @@ Definition unknown_backend_rejected_G := transfer _ unknown_backend_rejected_E.
 Definition call_argument_wins_G := transfer _ call_argument_wins_E.
 Definition solve_receiver_G := transfer _ solve_receiver_E.
 Definition auto_detected_importable_G := transfer _ auto_detected_importable_E.
-Definition primitive_decision_G := transfer _ primitive_decision_E.
-Definition acyclic_never_primitive_G := transfer _ acyclic_never_primitive_E.
-Definition site_decisions_G := transfer _ site_decisions_E.
+
+(* ---- graph part, about the generated decision structure ---- *)
+
+Lemma primitive_decision_G : primitive_decision_stmt tables.
+Proof.
+  intros [db bp p d] arg acyclic explicit dd. cbv zeta.
+  simpl use_graph_primitive; simpl use_graph_division_primitive.
+  destruct p, d, arg as [[|]|], acyclic, explicit, dd; vm_compute; repeat split.
+Qed.
+
+Definition acy_ok (c : callrec) : bool :=
+  match c_acy c with AcyConst true => false | _ => true end.
+
+Lemma acyclic_never_primitive_G : acyclic_never_primitive_stmt tables.
+Proof.
+  intros [db bp p d] arg explicit dd. repeat split.
+  - destruct p, arg as [[|]|], explicit, dd; vm_compute; reflexivity.
+  - destruct p, arg as [[|]|], explicit, dd; vm_compute; reflexivity.
+  - destruct p, arg as [[|]|]; vm_compute; reflexivity.
+  - assert (H : forallb acy_ok (t_calls tables) = true) by (vm_compute; reflexivity).
+    rewrite forallb_forall in H. intros c Hc. specialize (H c Hc). unfold acy_ok in H.
+    destruct (c_acy c) as [|[|]]; auto; discriminate.
+Qed.
+
+Lemma site_decisions_G : site_decisions_stmt tables.
+Proof.
+  intros [db bp p d] arg acyclic. repeat split; destruct arg as [[|]|], acyclic, p, d; vm_compute; reflexivity.
+Qed.
